@@ -249,17 +249,23 @@ def novel_world(swap=False):
        chromosome is longer, i.e. processed first"""
     from vlib import worlds as W
     from vlib import syn
-    w = {"chroms": {"chr1": 17000 if not swap else 16000, "chr2": 16000 if not swap else 17000}, "genes": [], "reads": [], "sites": []}
+    w = {"chroms": {"chr1": 23000 if not swap else 22000, "chr2": 22000 if not swap else 23000}, "genes": [], "reads": [], "sites": []}
     w["genes"].append(W.locus_gene("G1", "chr2", "+", 13000, {"T1": [0, 1, 2]}))
     syn.plant_for_transcripts(w)
     reads = []
     loci = [("plusA", "chr1", 1000, "+", "+"), ("minusT", "chr1", 4000, "-", "-"), ("ncA", "chr1", 7000, "nc", "+"),
             ("ncT", "chr1", 10000, "nc", "-"), ("plusT", "chr1", 13000, "+", "-"),
             ("minusT2", "chr2", 1000, "-", "-"), ("plusA2", "chr2", 4000, "+", "+"), ("ncT2", "chr2", 7000, "nc", "-"),
-            ("ncA2", "chr2", 10000, "nc", "+")]
+            ("ncA2", "chr2", 10000, "nc", "+"),
+            # as many '+' canonical as '-' canonical introns: the splice sites are uninformative, the tail decides
+            ("tieA", "chr1", 16000, "tie", "+"), ("tieT", "chr1", 19000, "tie", "-"), ("tieT2", "chr2", 16000, "tie", "-")]
     for name, chrom, base, kind, tail in loci:
         blocks = W.exons(base, [0, 1, 2])
-        W.add_sites_for_blocks(w, chrom, blocks, kind)
+        if kind == "tie":
+            W.add_sites_for_blocks(w, chrom, blocks[:2], "+")
+            W.add_sites_for_blocks(w, chrom, blocks[1:], "-")
+        else:
+            W.add_sites_for_blocks(w, chrom, blocks, kind)
         for i in range(6):
             reads.append(W.read_of("%s_%d" % (name, i), chrom, blocks, strand=tail))
     for i in range(3):
@@ -290,8 +296,10 @@ def pipeline_case(args):
         w = W.mixed_world(param[0], groups=False, multimappers=True)
         extra += ["--report_canonical", param[1], "--model_construction_strategy", "all"]
     else:
-        w, loci = novel_world(swap=param.endswith("/swap"))
+        w, loci = novel_world(swap="/swap" in param)
         extra += ["--report_canonical", param.split("/")[0], "--model_construction_strategy", "all"]
+        if "/nopolya" in param:
+            extra += ["--polya_requirement", "never"]
     if kind == "shared":
         from props import c11
         m_first, with_known, reflect, lvl = param
@@ -357,7 +365,7 @@ def pipeline_case(args):
             if loci and introns and not tid.startswith("T"):
                 for name, chrom_, base, kind_, tail in loci:
                     if t["chr"] == chrom_ and ex[0][0] >= base and ex[-1][1] <= base + (3000 if base else 10 ** 9):
-                        site_strand = {"+": "+", "-": "-", "nc": "."}[kind_]
+                        site_strand = {"+": "+", "-": "-", "nc": ".", "tie": "."}[kind_]
                         if site_strand != ".":
                             if t["strand"] != site_strand:
                                 errs.append(("novel-strand-vs-sites", "%s locus %s: strand %s but splice sites imply %s" %
@@ -413,7 +421,7 @@ def run(ctx):
     orders = sorted(set(itertools.product("lr", repeat=n)) - {("l",) * n, ("r",) * n})
     jobs = [("anti", o, ctx.scratch) for o in orders] + [("antinovel", (v, lvl), ctx.scratch) for v in (0, 1, 2) for lvl in ("all", "auto")] + \
         [("mixed", (n, lvl), ctx.scratch) for n in ((2,) if quick else (1, 2, 3)) for lvl in ("auto", "all")] + \
-        [("shared", (mf, wk, rf, lvl), ctx.scratch) for mf in (0, 1) for wk in (0, 1) for rf in (0, 1) for lvl in ("all", "auto")] + [("novel", lvl + sw, ctx.scratch) for lvl in ("auto", "only_canonical", "only_stranded", "all") for sw in ("", "/swap")]
+        [("shared", (mf, wk, rf, lvl), ctx.scratch) for mf in (0, 1) for wk in (0, 1) for rf in (0, 1) for lvl in ("all", "auto")] + [("novel", lvl + sw, ctx.scratch) for lvl in ("auto", "only_canonical", "only_stranded", "all") for sw in ("", "/swap", "/nopolya")]
     nchecked = 0
     for kind, param, nc, errs in core.pmap(pipeline_case, jobs):
         nchecked += nc
